@@ -174,6 +174,10 @@ type c13Call struct {
 	/* Scheme, if set, is how the URL spells https (schemes are
 	case-insensitive). */
 	Scheme string `json:"scheme,omitempty"`
+	/* Host, if set, is how the URL names the server's loopback address
+	instead of the IP literal: "localhost", "localhost." (a trailing dot),
+	"LOCALHOST". */
+	Host string `json:"host,omitempty"`
 }
 
 // c13Shell is the harness's Shell: every callback is a scheduling point.
@@ -290,7 +294,12 @@ func (w *c13World) run(c c13Call, id string, gate func(string)) (verdict string,
 	if "" != c.Scheme {
 		scheme = c.Scheme
 	}
-	url := scheme + "://" + w.servers[c.Server].addr + "/io"
+	addr := w.servers[c.Server].addr
+	if "" != c.Host {
+		_, port, _ := net.SplitHostPort(addr)
+		addr = net.JoinHostPort(c.Host, port)
+	}
+	url := scheme + "://" + addr + "/io"
 	err = simpleshell.Go(context.Background(), simpleshell.ConnConfig{C2: url, Fingerprint: w.pins[c.Pin]}, sh)
 	if nil == err {
 		return "ok", nil, sh
@@ -424,6 +433,21 @@ func c13(r *ev.Result, tier string) {
 	/* (a') the same verdicts under other process-wide HTTP settings. */
 	c13Proxied(r, w, id)
 	checkDefaults("after the proxied calls (the harness restored what it had changed)")
+
+	/* (a') the server named in other ways than by its IP literal. */
+	for _, host := range []string{"localhost", "localhost.", "LOCALHOST", "LocalHost."} {
+		if as, err := net.LookupHost(host); nil != err || 0 == len(as) {
+			r.Inc("host_spellings_this_machine_cannot_resolve", 1)
+			continue
+		}
+		for _, c := range []c13Call{{Server: "A", Pin: "pinA", Host: host}, {Server: "B", Pin: "pinA", Host: host}, {Server: "I", Pin: "pinA", Host: host}, {Server: "A", Pin: "not-base64", Host: host}} {
+			i := id()
+			vd, err, sh := w.run(c, i, nil)
+			w.judge(r, "server named "+host, map[string]any{"calls": []c13Call{c}}, c, i, vd, err, sh)
+			r.Evaluations++
+			r.Traces++
+		}
+	}
 
 	/* (b) */
 	menu := []c13Call{{Server: "A", Pin: "pinA"}, {Server: "B", Pin: "pinA"}, {Server: "B", Pin: "pinB"}, {Server: "A", Pin: "pinB"}, {Server: "A", Pin: "none"}, {Server: "C", Pin: "pinA"}, {Server: "I", Pin: "pinA"}}
